@@ -3,6 +3,8 @@
 #include <memory>
 #include "lsm.hpp"
 #include "apitable.hpp"
+#include "kernels.hpp"
+#include <map>
 #include "ctorops.hpp"
 extern "C" {
 #include "reim/reim_fft_private.h"
@@ -178,6 +180,38 @@ inline void add_table_ops(std::vector<LsmOp>& ops) {
     add("q120_ntt_bb_avx2(table n=16)", [q] { GBuf d(32 * 16, 8); for (size_t i = 0; i < 64; ++i) d.as<uint64_t>()[i] = probe62(i) * 3; q120_ntt_bb_avx2(q->f, (q120b*)d.p); return hash_buf(d); });
     add("q120_intt_bb_avx2(table n=16)", [q] { GBuf d(32 * 16, 8); for (size_t i = 0; i < 64; ++i) d.as<uint64_t>()[i] = probe62(i) * 3; q120_intt_bb_avx2(q->i, (q120b*)d.p); return hash_buf(d); });
     add("q120_vec_mat1col_product_bbc_avx2(table, ell=7)", [q] { GBuf r(32, 8), x(32 * 7, 16), y(32 * 7, 24); for (size_t i = 0; i < 28; ++i) { x.as<uint64_t>()[i] = probe62(i) * 5; y.as<uint64_t>()[i] = probe62(i + 99) * 7; } q120_vec_mat1col_product_bbc_avx2(q->bc, 7, (q120b*)r.p, (q120b*)x.p, (q120c*)y.p); return hash_buf(r); });
+  }
+}
+
+// ---- exported kernels (q120, reim, reim4, cplx, coefficient kernels incl. the in-place ones): one case per kernel name and size layer.
+// A kernel case builds whatever table it needs inside the op (like a constructor op), so the op is self-contained.
+inline void add_kernel_ops(std::vector<LsmOp>& ops) {
+  std::vector<KernelGroup> gs;
+  for (uint64_t v : {7, 100}) gs.push_back({K_Q120_PROD, v});
+  for (uint64_t v : {8, 64}) { gs.push_back({K_Q120_CONV, v}); gs.push_back({K_Q120_BLK, v}); }
+  for (uint64_t v : {16, 4096}) { gs.push_back({K_Q120_NTT, v}); gs.push_back({K_FFT, v}); }
+  for (uint64_t v : {16, 256}) { gs.push_back({K_FFTVEC, v}); gs.push_back({K_CONV, v}); }
+  for (uint64_t v : {16, 64}) gs.push_back({K_REIM4, v});
+  for (uint64_t v : {16, 256, 8192}) gs.push_back({K_COEFF, v});
+  for (auto& G : gs) {
+    std::map<std::string, std::string> last;  // kernel name -> id of its last case in the group
+    std::vector<std::string> order;
+    run_kernel_group(G, false, [&](ApiCase& c, const KernelInfo&) {
+      if (!c.nontrivial && c.bufs.empty()) return;
+      size_t a = c.id.find('|'), b = c.id.find('|', a + 1);
+      std::string nm = c.id.substr(a + 1, b == std::string::npos ? std::string::npos : b - a - 1);
+      if (!last.count(nm)) order.push_back(nm);
+      last[nm] = c.id; });
+    for (auto& nm : order) {
+      std::string want = last[nm];
+      LsmOp op; op.name = want + sfmt("|layer=%llu", (unsigned long long)G.size); op.family = "kernel"; op.warm_key = "";
+      KernelGroup G2 = G;
+      op.run = [G2, want] { uint64_t h = 0; bool found = false;
+        run_kernel_group(G2, false, [&](ApiCase& c, const KernelInfo&) { if (found || c.id != want) return; found = true; ExecResult r; ExecOpts eo; eo.prefill = 1; execute(c, eo, r); h = hash_outputs(c, r); });
+        if (!found) machinery_error("kernel op %s not regenerated", want.c_str());
+        return h; };
+      ops.push_back(op);
+    }
   }
 }
 
